@@ -1,6 +1,7 @@
 ---- MODULE Conf_Base64 ----
 (* one TLC state = one batch {"b": [case, ...]}; cases (see harness/u_base64_ops.h, u_base64.cc):
    rt:    s, e (= what the implementation's encoder produced), per-call byte counts, then the decode of e
+   rtall: pre and, for every byte b, the same for the string pre \o <<b>> (complete one- and two-byte sets, 256 strings per case)
    dec:   e (arbitrary text), split decode result
    basic: hdr (Authorization header value), cs (case sensitive user names), decoded/user/haspw/pw from the real decode() *)
 EXTENDS Base64, ConfLib
@@ -29,6 +30,8 @@ POk(k) == /\ ~k.ub
           /\ CASE k.op = "rt" -> /\ k.e = Encode(k.s) /\ k.raweq         \* raweq: base64_encode_raw produced the same text
                                  /\ k.en1 <= EncLen(k.ek1) /\ k.en2 <= EncLen(k.ek2) /\ k.enf <= 3
                                  /\ Promise(k) /\ Accepted(k) /\ k.out = k.s
+               [] k.op = "rtall" -> /\ k.promise /\ k.raweq /\ Len(k.es) = 256
+                                    /\ \A b \in 0..255 : LET s == k.pre \o <<b>> IN k.es[b + 1] = Encode(s) /\ k.acc[b + 1] /\ k.outs[b + 1] = s
                [] k.op = "dec" -> DecOk(k, k.e)
                [] k.op = "basic" -> BasicOk(k)
 \* I-layer: the decoding automaton as it is today; user names folded to lower case when cs = 0
